@@ -39,6 +39,23 @@ inductive FlowType where
   | borehole | system | other
   deriving Repr, DecidableEq, Inhabited
 
+/-- The statements of `GHE.size` as operations of the height/temperature state machine
+    (generated from the source by translate/gen_report.py, interpreted by Model/Report.lean). -/
+inductive SizeOp where
+  | setMid        -- self.bhe.b.H = (max_height + min_height) / 2
+  | solve         -- returned_height = solve_root(self.bhe.b.H, local_objective, lower=min_height, upper=max_height, …)
+  | setReturned   -- self.bhe.b.H = returned_height
+  | simulate      -- self.simulate(method=method)
+  deriving Repr, DecidableEq, Inhabited
+
+/-- The statements of the nested `local_objective(h)`. -/
+inductive ObjOp where
+  | setH          -- self.bhe.b.H = h
+  | simulate      -- max_hp_eft, min_hp_eft = self.simulate(method=method)
+  | cost          -- t_excess = self.cost(max_hp_eft, min_hp_eft)
+  | ret           -- return t_excess
+  deriving Repr, DecidableEq, Inhabited
+
 def ratAbs (x : Rat) : Rat := if x < 0 then -x else x
 def ratMax (a b : Rat) : Rat := if a < b then b else a   -- Python max(a,b): first maximal wins; equal ⇒ a
 def ratMin (a b : Rat) : Rat := if b < a then b else a
